@@ -155,7 +155,7 @@ func judgeIdentity(prop string, e *Entry, p *Plan, out *RunOut) *Violation {
 			return mkViolation(prop, "unexpected-error:"+r.Op.Kind+":"+errClass(r.Err), fmt.Sprintf("%s failed although no fault is armed and every symbol exists: %s", r.Op, r.Err), e, p, out)
 		}
 	}
-	if c, d := CheckIdentity(e.Cfg, Observe(out.Results)); c != "" {
+	if c, d := CheckIdentity(e.Cfg, Observe(e.Cfg, out.Results)); c != "" {
 		return mkViolation(prop, "identity:"+c, d, e, p, out)
 	}
 	return nil
@@ -239,6 +239,8 @@ func judgeC20(e *Entry, p *Plan, out *RunOut) *Violation {
 	return nil
 }
 
+var reGenPkg = regexp.MustCompile(`^c[0-9]+\.`)
+
 var reFrame = regexp.MustCompile(`(?m)^  ([A-Za-z0-9_./*()\-]+)\(\)$`)
 
 // raceSig names the first frames of the two stacks that are not in the runtime or the simulator.
@@ -252,6 +254,7 @@ func raceSig(text string) string {
 		if i := strings.LastIndex(f, "/"); i >= 0 {
 			f = f[i+1:]
 		}
+		f = reGenPkg.ReplaceAllString(f, "gen.")
 		dup := false
 		for _, x := range fr {
 			if x == f {
